@@ -42,7 +42,7 @@ def run(chk, build):
     tier = chk.tier
     proofs_ok = base.proof_obligations(chk, build, ["Props/C07.v"], [])
     disagreements, oracle_failed = [], False
-    n = 200 if tier == "quick" else 5000
+    n = 320 if tier == "quick" else 5000
     g0 = gen.Gen(chk.seed * 1000003 + 7)
     r = g0.r
     pterms, pmeta = [], []
@@ -53,7 +53,7 @@ def run(chk, build):
         else:
             dt = r.random() < 0.25
             gg = gen.Gen(r.randrange(10 ** 9), datetime=dt)
-            s = gg.variants() if i % 3 == 1 else gg.literal_heavy() if i % 9 == 0 else gg.samples(depth=3, nmax=3 if i % 3 == 2 else 4)
+            s = gg.variants() if i % 2 == 1 else gg.literal_heavy() if i % 10 == 0 else gg.samples(depth=3, nmax=3 if i % 3 == 2 else 4)
             if i % 3 == 2:
                 s = gg.type_twin(s)
             o = {"cmp": r.choice([None, None, [("exact",)], [("percent", 0.5)], [("number", 2)]]), "rn": RN6 if dt else RN3,
